@@ -14,6 +14,7 @@ import (
 	"math"
 	"os"
 	"path/filepath"
+	"reflect"
 	"regexp"
 	"strconv"
 	"strings"
@@ -310,7 +311,8 @@ func c02AfterPanic(c *oracleCtx) {
 			if catch(func() { got = serial(root) }) {
 				return "String() panics on a repaired, acyclic container after an earlier String() panicked half-way"
 			}
-			if got != want {
+			var ja, jb any
+			if json.Unmarshal([]byte(got), &ja) != nil || json.Unmarshal([]byte(want), &jb) != nil || !reflect.DeepEqual(ja, jb) {
 				return fmt.Sprintf("String() after a recovered panic gives %q, want %q", got, want)
 			}
 			if catch(func() { got = serial(inner) }) || !json.Valid([]byte(got)) {
